@@ -194,10 +194,15 @@ func (g *Generator) AdjustAnnotations(annotations map[string]string) error {
 	if annotations, err = g.filterAnnotations(annotations); err != nil {
 		return err
 	}
-	for k, v := range annotations {
+	// removals first, so that removing and setting the same key in one
+	// adjustment does not depend on map iteration order (the set wins)
+	for k := range annotations {
 		if key, marked := nri.IsMarkedForRemoval(k); marked {
 			g.RemoveAnnotation(key)
-		} else {
+		}
+	}
+	for k, v := range annotations {
+		if _, marked := nri.IsMarkedForRemoval(k); !marked {
 			g.AddAnnotation(k, v)
 		}
 	}
